@@ -304,7 +304,12 @@ func c18() {
 				aerr = d.AddUser("probe", "correct horse", true)
 				if aerr == nil {
 					ok1, _, _, _, e1 = d.Authenticate("probe", "correct horse")
-					ok2, _, _, _, e2 = d.Authenticate("probe", "wrong horse")
+					// several wrong passwords: with a configured digest length of one or two bytes a single wrong
+					// password collides with probability 2^-8 / 2^-16, which is the configuration's doing
+					ok2 = true
+					for i := 0; i < 6 && ok2; i++ {
+						ok2, _, _, _, e2 = d.Authenticate("probe", fmt.Sprintf("wrong horse %d", i))
+					}
 				}
 			})
 		})
@@ -316,7 +321,7 @@ func c18() {
 		case pan != "":
 			R.Violate("c18:accepted-set-panics:"+c.Class, "an accepted parameter set panics on first use: "+pan, c.ID, wit)
 		case aerr == nil && (!ok1 || ok2):
-			R.Violate("c18:accepted-set-does-not-verify:"+c.Class, fmt.Sprintf("add succeeded but authenticate(right)=%v (%v) authenticate(wrong)=%v (%v)", ok1, e1, ok2, e2), c.ID, wit)
+			R.Violate("c18:accepted-set-does-not-verify:"+c.Class, fmt.Sprintf("add succeeded but authenticate(right)=%v (%v) authenticate(6 wrong passwords) all true=%v (%v)", ok1, e1, ok2, e2), c.ID, wit)
 		case aerr != nil:
 			R.Count("accepted_but_add_errors", 1)
 			if c.Expect == "accept" && c.Class != "no-sets-default-0" && c.Class != "no-sets-default-missing" {
